@@ -95,8 +95,9 @@ def get_scoped_setup_inputs(
             return None
         # if it's an operation
         else:
-            # we check that it's effect free
-            if is_side_effect_free(val.owner):
+            # we check that it's effect free; an op with regions may capture values that this walk over
+            # operands does not see, so it can neither be moved nor cloned
+            if is_side_effect_free(val.owner) and not val.owner.regions:
                 if val.owner in inputs:
                     continue
                 # if it is effect free, we recurse on it's operands
